@@ -174,6 +174,18 @@ pub fn run_viter<E: EndianParse>(
     o.write_str("[")?;
     for (k, q) in qs.iter().enumerate() {
         sep(o, k)?;
+        if q[0].w() == "names" && q.len() == 2 && kind == "verdaux" {
+            // the public constructor of the names iterator (get_definition builds the same thing)
+            let st = StringTable::new(q[1].b());
+            let it = elf::gnu_symver::SymbolNamesIterator::new(VerDefAuxIterator::new(e, c, count as u16, off, d), &st);
+            o.write_str("[")?;
+            for (i, n) in Hinted(it).enumerate() {
+                sep(o, i)?;
+                show_res(o, n, |o, s| show_range(o, q[1].b(), s.as_bytes()))?;
+            }
+            o.write_str("]")?;
+            continue;
+        }
         let all = match (q[0].w(), q.len()) {
             ("all", 1) => None,
             ("nexts", 2) => Some(q[1].us()),
